@@ -180,7 +180,8 @@ def apalache_batch(sc, recs, name):
     out_dir = os.path.join(sc, "apa-" + name)
     res = {}
     for inv in ("OK", "Conf"):
-        rc, out, wall = run(["apalache-mc", "check", "--out-dir=" + out_dir, "--length=0", "--inv=" + inv, name + ".tla"], cwd=sc, timeout=900)
+        rc, out, wall = run(["apalache-mc", "check", "--out-dir=" + out_dir, "--length=0", "--inv=" + inv, name + ".tla"], cwd=sc, timeout=900,
+                            env=dict(JVM_ARGS="-Djava.io.tmpdir=" + sc, TMPDIR=sc))
         if "The outcome is: NoError" in out:
             res[inv] = None
         elif "The outcome is: Error" in out:
@@ -208,7 +209,8 @@ def check_C13(tier):
         sym = {}
         for inv, expect_error in (("PostHolds", False), ("PinnedPostHolds", True), ("Vacuity", True)):
             out_dir = os.path.join(sc, "apa-sym")
-            rc, out, wall = run(["apalache-mc", "check", "--out-dir=" + out_dir, "--length=0", "--inv=" + inv, "RateConvApa.tla"], cwd=sc, timeout=600)
+            rc, out, wall = run(["apalache-mc", "check", "--out-dir=" + out_dir, "--length=0", "--inv=" + inv, "RateConvApa.tla"], cwd=sc, timeout=600,
+                                env=dict(JVM_ARGS="-Djava.io.tmpdir=" + sc, TMPDIR=sc))
             shutil.rmtree(out_dir, ignore_errors=True)
             got_error = "The outcome is: Error" in out
             if not got_error and "The outcome is: NoError" not in out:
